@@ -105,6 +105,23 @@ theorem c12_bound (max : Nat) (hmax : 0 < max) (rs : List Run) (i : Nat)
       | inr hge => exact hge
     exact Nat.le_trans hle (Nat.min_le_right _ _)
 
+/-- **C12 (the limit may change between runs).** Whatever the stored pointer is - in particular one
+left behind by a larger limit - the slot the next run uses lies within the current limit, and a
+pointer at or beyond the limit wraps to slot 1 (it does not keep growing). -/
+theorem c12_next_within (pointer : Option Nat) (max : Nat) (hmax : 0 < max) :
+    1 ≤ nextId pointer max ∧ nextId pointer max ≤ max ∧
+    (∀ p, pointer = some p → max ≤ p → nextId pointer max = 1) := by
+  simp only [nextId]
+  refine ⟨by omega, ?_, ?_⟩
+  · by_cases h : pointer.getD 0 ≥ max
+    · simp [h]; omega
+    · simp [h]; omega
+  · intro p hp hle
+    subst hp
+    simp [hle]
+
+example : nextId (some 4) 2 = 1 ∧ nextId (some 1) 2 = 2 ∧ nextId none 2 = 1 := by decide
+
 /-- the default `max_retained_runs` the code uses today is positive -/
 theorem c12_default_pos : 0 < Consts.defaultMaxRetainedRuns := by decide
 
